@@ -28,6 +28,9 @@ import translate_pure  # noqa: E402
 MODULE = "QmcProofs.PureFnsAgree"
 GENERATED = os.path.join(common.LEAN, "QmcModel", "Generated", "PureFns.lean")
 AGREE = os.path.join(common.LEAN, "QmcProofs", "PureFnsAgree.lean")
+# QmcModel/Cluster.lean cannot be imported together with QmcModel/Interaction.lean (both declare Qmc.absR): own file
+MODULE_C = "QmcProofs.PureFnsAgreeCluster"
+AGREE_C = os.path.join(common.LEAN, "QmcProofs", "PureFnsAgreeCluster.lean")
 
 THEOREMS = [
     # fixed prelude of the translation
@@ -62,6 +65,21 @@ THEOREMS = [
     "into_qmc_edge_matrix_agree", "into_qmc_transverse_matrix_agree", "into_qmc_field_matrix_agree",
     # interaction size rule
     "mat_var_size_rule_agree",
+    # replicated closures (the translator requires the copies identical; majority vote names the deviating copy)
+    "cluster_weight_timestep_agree", "cluster_weight_single_cluster_step_agree", "ising_ratio_single_rvb_sweep_agree",
+    "ising_ratio_timestep_agree", "cluster_weight_agree_samplerCore", "ising_ratio_agree_rvb_edge",
+    "ising_ratio_agree_rvb_transverse", "ising_ratio_agree_rvb_field", "rvb_edge_weight_agree_rvb",
+    "rvb_edge_weight_timestep_nofield_agree", "rvb_edge_weight_single_rvb_sweep_field_agree",
+    "rvb_edge_weight_single_rvb_sweep_nofield_agree", "cluster_flip_prob_agree", "free_refresh_prob_agree",
+    "cluster_flip_prob_agree_isingTimestep", "cluster_flip_prob_agree_genericTimestep",
+    "free_refresh_prob_agree_samplerCore", "free_refresh_prob_agree_generic", "steps_to_run_timestep_agree",
+    "steps_to_run_single_rvb_sweep_agree", "h_closure_timestep_agree", "h_closure_single_diagonal_step_agree",
+    "h_closure_single_rvb_sweep_agree", "h_closure_set_enable_heatbath_agree", "h_closure_agree_isingHam",
+]
+
+THEOREMS_C = [
+    "fabs_agree", "isingFrozen_agree", "isingFrozen_agree_single_cluster_step", "freeRefresh_agree", "twoSiteW_agree",
+    "transverseW_agree", "longitudinalW_agree_diag", "bonds_fn_agree_isingClusterHam",
 ]
 
 TRUSTED = ("tools/translate_pure.py (locates a whitelist of small pure Rust functions by regex, parses them with a ~15-construct "
@@ -91,12 +109,13 @@ def _theorem_at(lines, lineno):
 
 
 def broken_theorems(build_output):
-    lines = open(AGREE).read().splitlines() if os.path.exists(AGREE) else []
     names = []
-    for m in re.finditer(r"error:?\s*\S*PureFnsAgree\.lean:(\d+):\d+", build_output):
-        t = _theorem_at(lines, int(m.group(1)))
-        if t and t not in names:
-            names.append(t)
+    for path, tag in ((AGREE, ""), (AGREE_C, "Cluster")):
+        lines = open(path).read().splitlines() if os.path.exists(path) else []
+        for m in re.finditer(r"error:?\s*\S*PureFnsAgree%s\.lean:(\d+):\d+" % tag, build_output):
+            t = _theorem_at(lines, int(m.group(1)))
+            if t and (tag + ":" + t if tag else t) not in names:
+                names.append(tag + ":" + t if tag else t)
     return names
 
 
@@ -123,8 +142,8 @@ def run(ck):
                 ck.oblige("agreement theorems of %s (not re-checked: the translator failed closed)" % MODULE, False, msg)
                 return False
             # 2. re-prove
-            ck.checker_cmds.append("cd /verif/lean && lake build " + MODULE)
-            brc, out, err = _lake([MODULE])
+            ck.checker_cmds.append("cd /verif/lean && lake build %s %s" % (MODULE, MODULE_C))
+            brc, out, err = _lake([MODULE, MODULE_C])
             text = out + err
             if brc != 0:
                 names = broken_theorems(text)
@@ -133,12 +152,12 @@ def run(ck):
                     ", ".join(names) or "<none located>", " | ".join(errs), text[-1200:])
             else:
                 detail = ""
-            ck.oblige("lake build %s (hand model == translated Rust source, all arguments)" % MODULE, brc == 0, detail)
+            ck.oblige("lake build %s %s (hand model == translated Rust source, all arguments)" % (MODULE, MODULE_C), brc == 0, detail)
             if brc != 0:
                 return False
             # 3. completeness: every generated definition occurs in the agreement file
             gen = re.findall(r"^def\s+(\w+)", open(GENERATED).read(), re.M)
-            agree = common.strip_lean_comments(open(AGREE).read())
+            agree = common.strip_lean_comments(open(AGREE).read()) + common.strip_lean_comments(open(AGREE_C).read())
             missing = [d for d in gen if not re.search(r"\bGen\.%s\b" % re.escape(d), agree)]
             ck.oblige("every generated definition (%d) is the subject of an agreement theorem" % len(gen), not missing, ("not covered: " + ", ".join(missing)) if missing else "")
             # 4. audit
@@ -146,6 +165,8 @@ def run(ck):
             ck.prop = save + "-purefns"
             try:
                 ck.audit(MODULE, ["Qmc.PureFnsAgree." + t for t in THEOREMS])
+                ck.prop = save + "-purefnsc"
+                ck.audit(MODULE_C, ["Qmc.PureFnsAgreeCluster." + t for t in THEOREMS_C])
             finally:
                 ck.prop = save
         finally:
@@ -153,5 +174,5 @@ def run(ck):
                 # mutation experiment on a scratch tree: put the file generated from /repo back, and the build with it
                 with open(GENERATED, "w") as f:
                     f.write(saved)
-                _lake([MODULE])
+                _lake([MODULE, MODULE_C])
     return len([o for o in ck.obligations if not o[1]]) == n0
